@@ -153,6 +153,21 @@ def rule_request_line(ctx):
     ctx.check(n >= 2 and not bad, R, "request-line", "request line = {method} SP {path-and-query | \"/\"} SP {version:?} CRLF in one emission, from the "
               "stored request and the effective URI; the phase advances to SendHeaders(0) exactly when it was written", loc=body_loc(part),
               detail=sorted(set(bad))[:5])
+    # with a URI override installed (redirect) the path-and-query must come from the override
+    def init_override(st):
+        _head_state("SendLine")(st)
+        st.write_leaf(REQ, (("f", "uri"), ("$v",)), ("variant", "Some"))
+    outs_o = I.run(part, [ref(REQ), ref(STATE), ref(W)], init_override)
+    bad_o = []
+    n_o = 0
+    for o in outs_o:
+        for e in o.state.events:
+            if e[0] == "emit" and len(e[1]) == 6 and e[1][2][2][0] != "bytes":
+                n_o += 1
+                if "('f', 'uri'), ('v', 'Some')" not in repr(e[1][2][2]):
+                    bad_o.append("with a URI override installed the request line still uses %s" % repr(e[1][2][2])[:160])
+    ctx.check(n_o >= 1 and not bad_o, R, "request-line-effective-uri", "after a redirect the request line carries the path-and-query of the effective "
+              "(override) URI", loc=body_loc(part), detail=sorted(set(bad_o))[:3])
     # "/" fallback and path both reachable
     kinds = set()
     for o in outs:
@@ -196,8 +211,10 @@ def rule_header_lines(ctx):
         flat = [p for e in emits for p in e]
         g = None
         for k, v in o.state.facts.items():
-            if k[0] == "eq" and "('in', 'index')" in repr(k) and "('in', 'last')" in repr(k) and v[0] == "bool":
+            if k[0] == "eq" and v[0] == "bool" and set((k[1], k[2])) == {("term", ("in", "index")), ("term", ("in", "last"))}:
                 g = v[1]
+            elif k[0] in ("eq", "lt") and v[0] == "bool" and "('in', 'index')" in repr(k) and "('in', 'last')" in repr(k):
+                bad.append("the blank line is tied to %s instead of `index == last index`" % (k[0] + repr(k[1:])[:120]))
         seen_guard.add(g)
         want = [("arg", "display"), ("lit", b": "), ("raw",), ("lit", b"\r\n")] + ([("lit", b"\r\n")] if g else [])
         got = [(p[0], p[1]) if p[0] in ("arg", "lit") else (p[0],) for p in flat]
